@@ -43,7 +43,7 @@ fn noop_waker() -> Waker {
 }
 
 /// Drives a future to completion, counting polls.
-fn run<F: Future>(fut: F) -> (F::Output, u32) {
+pub fn run<F: Future>(fut: F) -> (F::Output, u32) {
     let mut fut = std::pin::pin!(fut);
     let w = noop_waker();
     let mut cx = Context::from_waker(&w);
@@ -480,4 +480,10 @@ pub fn judge(rec: &mut Recorder, c: &AsyncCase, ex: Exec, _hello: &Value) -> Res
         rec.nontrivial(&c.ops);
     }
     Ok(())
+}
+
+/// Address of the compiler-generated `poll` of a future type (what `when_called_async` patches).
+pub fn poll_addr<F: Future>(_f: &F) -> usize {
+    let p: fn(Pin<&mut F>, &mut Context<'_>) -> Poll<F::Output> = <F as Future>::poll;
+    p as usize
 }
